@@ -1,6 +1,736 @@
-//! Harness for property C16 (stub: not built yet).
+//! vh-c16 — correspondence and oracle harness of property C16
+//! ("no accepted KIP mutation can touch engine-owned or immutable state").
+//!
+//! Ops (one per line; a case is one op):
+//!   json <Command as serde_json>      -> serde decode, `validate_command`
+//!   text <KIP text on one line>       -> `parse_kip`
+//!   assert <{"prefix":n,"spec":{…}}>  -> `MUTATE { n × CREATE CONCEPT … ASSERT … }` through `parse_kip`
+//!
+//! For every op the real `Command` (when there is one) is projected through its serde_json encoding
+//! to the Lean driver's line format and the accept/reject verdict (and, when recognised, the reason)
+//! is compared with the model. Every accepted command is walked by the independent oracle.
+
+mod cases;
+mod oracle;
+mod project;
+mod unparse;
+
+use anda_kip::{Command, KipError, KipErrorCode, parse_kip, validate_command};
+use cases::*;
+use serde_json::{Value, json};
+use std::panic::{AssertUnwindSafe, catch_unwind};
+use unparse::{PLAIN, Spelling, U};
+use vh_common::{Args, ModelProc, Report, Rng};
+
+struct Env {
+    model: Option<ModelProc>,
+    report: Report,
+    filter_sample: Value,
+    seen_failure_keys: std::collections::BTreeSet<String>,
+}
+
+fn code_name(e: &KipError) -> String {
+    match e.code {
+        KipErrorCode::InvalidSyntax => "syntax".into(),
+        KipErrorCode::DuplicateLocalHandle => "duplicate_handle".into(),
+        KipErrorCode::ReferenceError => "reference".into(),
+        _ => e.name().to_string(),
+    }
+}
+
+/// The reason of a tree-validator error, when its message is one this harness recognises.
+/// Unrecognised (e.g. reworded) messages yield `None` and only the code is compared.
+fn reason_tag(e: &KipError) -> Option<&'static str> {
+    let m = e.message.as_str();
+    let table: &[(&str, &str)] = &[
+        ("must carry at least one mutation", "empty_plan"),
+        ("is engine-maintained state", "protected"),
+        ("is assigned twice in one block", "dup_key"),
+        ("is listed twice in one block", "dup_key"),
+        ("arguments, found", "arity"),
+        ("BELIEF is a read-only Projection", "belief"),
+        ("alternation and hop quantifiers are KQL traversal forms and are not selection", "pred_path"),
+        ("a Proposition subject must be an Element reference", "literal_subject"),
+        ("UPSERT CONCEPT must MATCH a stable identity", "upsert_identity"),
+        ("UNSET STRUCTURAL removes named references", "empty_unset_structural"),
+        ("ENSURE PROPOSITION needs an exact quoted predicate", "pred_variable"),
+        ("UPDATE requires at least one SET or UNSET action", "no_actions"),
+        ("a mutable field:", "immutable_field"),
+        ("a mutable target:", "structural_target"),
+        ("a target with structural fields", "structural_target"),
+        ("an update expression that reads only the target", "foreign_path"),
+        ("PURGE must be confirmed", "purge_confirm"),
+        ("is claimed by two clauses", "dup_handle"),
+        ("is not bound by this command's mutation outputs", "unbound"),
+        ("EXPORT CAPSULE needs at least one selection pattern", "empty_export"),
+    ];
+    table.iter().find(|(needle, _)| m.contains(needle)).map(|(_, tag)| *tag)
+}
+
+/// Why the text grammar refused (context strings of the parser), for the histogram only.
+fn text_reason(e: &KipError) -> &'static str {
+    let m = e.message.as_str();
+    let table: &[(&str, &str)] = &[
+        ("a writable field:", "protected"),
+        ("not already assigned in this block", "dup_key"),
+        ("not already listed in this block", "dup_key"),
+        ("a mutable pattern: BELIEF", "belief"),
+        ("a mutable field:", "immutable_field"),
+        ("a mutable target:", "structural_target"),
+        ("a target with structural fields", "structural_target"),
+        ("reads only the target element", "foreign_path"),
+        ("a required MATCH on a stable identity", "upsert_identity"),
+        ("the exact confirmation literal", "purge_confirm"),
+        ("declared arity", "arity"),
+        ("never a Literal", "literal_subject"),
+        ("at least one (field, target) entry", "empty_unset_structural"),
+        ("at least one SET or UNSET action", "no_actions"),
+        ("by: <semantic actor>", "assert_missing_by"),
+        ("mode: one of", "assert_missing_mode"),
+        ("an ASSERT member:", "assert_unknown_member"),
+        ("for the ASSERT key member", "assert_bad_key"),
+        ("a clause this mutation admits", "clause_not_admitted"),
+        ("at least one selection pattern", "empty_export"),
+    ];
+    if let Some(t) = reason_tag(e) {
+        return t;
+    }
+    table.iter().find(|(needle, _)| m.contains(needle)).map(|(_, tag)| *tag).unwrap_or("grammar")
+}
+
+fn fix_filters(v: &mut Value, sample: &Value) {
+    match v {
+        Value::Object(m) => {
+            if m.len() == 1 && m.get("Filter").is_some_and(|f| f.is_null()) {
+                *v = sample.clone();
+                return;
+            }
+            m.values_mut().for_each(|c| fix_filters(c, sample));
+        }
+        Value::Array(xs) => xs.iter_mut().for_each(|c| fix_filters(c, sample)),
+        _ => {}
+    }
+}
+
+enum Real {
+    Accepted(Value),
+    Rejected(KipError, Option<Value>),
+    Undecodable,
+    Panicked(String),
+}
+
+fn run_real(op: &str) -> Real {
+    let (kind, rest) = op.split_once(' ').unwrap_or((op, ""));
+    let r = catch_unwind(AssertUnwindSafe(|| match kind {
+        "json" => match serde_json::from_str::<Command>(rest) {
+            Err(_) => Real::Undecodable,
+            Ok(cmd) => {
+                let tree = serde_json::to_value(&cmd).expect("Command serialises");
+                match validate_command(&cmd) {
+                    Ok(()) => Real::Accepted(tree),
+                    Err(e) => Real::Rejected(e, Some(tree)),
+                }
+            }
+        },
+        "text" => match parse_kip(rest) {
+            Ok(cmd) => Real::Accepted(serde_json::to_value(&cmd).expect("Command serialises")),
+            Err(e) => Real::Rejected(e, None),
+        },
+        _ => Real::Undecodable,
+    }));
+    match r {
+        Ok(x) => x,
+        Err(p) => Real::Panicked(p.downcast_ref::<String>().cloned().or_else(|| p.downcast_ref::<&str>().map(|s| s.to_string())).unwrap_or_else(|| "panic".into())),
+    }
+}
+
+fn nontrivial_tree(tree: &Value) -> bool {
+    // carries something for the guards to look at
+    let s = tree.to_string();
+    ["\"set_fields\":[", "\"set_attributes\":[", "\"values\":[", "\"where_clauses\":[", "\"Handle\"", "\"SetFields\"", "\"SetAttributes\"", "\"SetStructural\"",
+     "\"UnsetAttributes\"", "\"UnsetFacet\"", "\"UnsetStructural\"", "\"SetFacet\"", "\"set_structural\":[", "\"unset_attributes\":[", "\"EnsureProposition\"", "\"Purge\""]
+        .iter()
+        .any(|n| s.contains(n))
+}
+
+impl Env {
+    fn ask(&mut self, line: &str) -> Option<String> {
+        self.model.as_mut().map(|m| m.ask(line))
+    }
+
+    /// Compare the implementation's verdict on `tree` with the model's.
+    fn compare(&mut self, op: &str, tree: &Value, implementation: Result<(), &KipError>) {
+        let line = match project::command_line(tree) {
+            Ok(Some(l)) => l,
+            Ok(None) => return,
+            Err(e) => {
+                self.report.disagreement("projection drift: the Command encoding no longer matches the model's AST", &[op.to_string()], "-", &e);
+                return;
+            }
+        };
+        let Some(model) = self.ask(&line) else { return };
+        self.report.model_compared += 1;
+        let (imp_coarse, imp_fine) = match implementation {
+            Ok(()) => ("ok".to_string(), Some("ok".to_string())),
+            Err(e) => (format!("err:{}", code_name(e)), reason_tag(e).map(|t| format!("err:{}:{t}", code_name(e)))),
+        };
+        let model_coarse = model.splitn(3, ':').take(2).collect::<Vec<_>>().join(":");
+        let agree = match &imp_fine {
+            Some(f) => *f == model,
+            None => {
+                self.report.hit("reason_unrecognised");
+                imp_coarse == model_coarse
+            }
+        };
+        if !agree {
+            let shown = imp_fine.unwrap_or(imp_coarse);
+            let detail = match implementation {
+                Err(e) => format!("{shown} ({})", e.message.lines().next().unwrap_or("")),
+                Ok(()) => shown,
+            };
+            self.report.disagreement("validate verdict", &[op.to_string(), format!("# model line: {line}")], &model, &detail);
+        }
+    }
+
+    fn oracle(&mut self, op: &str, tree: &Value) {
+        let n = oracle::structural_engine_named(tree);
+        if n > 0 {
+            self.report.hit_n("observed:accepted_structural_field_named_like_engine_owned", n);
+        }
+        let violations = oracle::check(tree);
+        for v in violations {
+            self.report.hit(&format!("oracle:{}", v.key));
+            if !self.seen_failure_keys.insert(v.key.clone()) {
+                continue;
+            }
+            let ops = self.shrink_op(op, &v.key);
+            self.report.oracle_failure(&v.key, &v.what, &ops, "an accepted command satisfies the C16 safety walk", &format!("accepted; violation: {}", v.what));
+        }
+    }
+
+    /// Minimise a failing op: drop clauses of the plan while the same oracle key still fires.
+    fn shrink_op(&self, op: &str, key: &str) -> Vec<String> {
+        let (kind, rest) = op.split_once(' ').unwrap_or((op, ""));
+        if kind != "json" {
+            return vec![op.to_string()];
+        }
+        let Ok(cmd) = serde_json::from_str::<Value>(rest) else { return vec![op.to_string()] };
+        let Some(clauses) = cmd.pointer("/Kml/clauses").and_then(|c| c.as_array()).cloned() else { return vec![op.to_string()] };
+        let rebuild = |cs: &[Value]| format!("json {}", json!({"Kml": {"explicit_transaction": true, "clauses": cs}}));
+        let fails = |cs: &[Value]| -> bool {
+            match run_real(&rebuild(cs)) {
+                Real::Accepted(tree) => oracle::check(&tree).iter().any(|v| v.key == key),
+                _ => false,
+            }
+        };
+        let small = vh_common::shrink(clauses, fails, 200);
+        vec![rebuild(&small)]
+    }
+
+    fn eval(&mut self, op: &str) {
+        let (kind, rest) = op.split_once(' ').unwrap_or((op, ""));
+        if kind == "assert" {
+            return self.eval_assert(op, rest);
+        }
+        self.report.hit(&format!("op:{kind}"));
+        match run_real(op) {
+            Real::Undecodable => {
+                self.report.hit("err:decode");
+                self.report.case(op, false);
+            }
+            Real::Panicked(msg) => {
+                self.report.case(op, false);
+                self.report.oracle_failure("panic", "the parser / validator panicked", &[op.to_string()], "Ok or Err", &msg);
+            }
+            Real::Accepted(tree) => {
+                self.report.hit("verdict:accepted");
+                self.report.case(&tree.to_string(), nontrivial_tree(&tree));
+                self.compare(op, &tree, Ok(()));
+                self.oracle(op, &tree);
+                if kind == "text" {
+                    // what the text parser produced must also pass the tree validator again, and survive serde
+                    match serde_json::from_value::<Command>(tree.clone()) {
+                        Ok(cmd) => {
+                            if validate_command(&cmd).is_err() {
+                                self.report.oracle_failure("text-tree-revalidation", "a tree produced by parse_kip is refused by validate_command", &[op.to_string()], "ok", "err");
+                            }
+                        }
+                        Err(e) => self.report.oracle_failure("text-tree-serde", "a tree produced by parse_kip does not survive serde_json", &[op.to_string()], "round trip", &e.to_string()),
+                    }
+                }
+                if self.report.samples.len() < self.report.max_samples && nontrivial_tree(&tree) {
+                    self.report.sample(json!({"op": op, "verdict": "accepted"}));
+                }
+            }
+            Real::Rejected(e, tree) => {
+                self.report.case(op, false);
+                match tree {
+                    Some(tree) => {
+                        self.report.hit(&format!("verdict:rejected:{}", reason_tag(&e).unwrap_or("unrecognised")));
+                        self.compare(op, &tree, Err(&e));
+                    }
+                    None => self.report.hit(&format!("text_rejected:{}", text_reason(&e))),
+                }
+            }
+        }
+    }
+
+    fn eval_assert(&mut self, op: &str, rest: &str) {
+        self.report.hit("op:assert");
+        let Ok(mut case) = serde_json::from_str::<Value>(rest) else {
+            self.report.hit("err:decode");
+            self.report.case(op, false);
+            return;
+        };
+        let sample = self.filter_sample.clone();
+        fix_filters(&mut case, &sample);
+        let prefix = case["prefix"].as_u64().unwrap_or(0) as usize;
+        let spec = case["spec"].clone();
+        let sp = Spelling { quote_keys: case["quote_keys"].as_bool().unwrap_or(false), lower_keywords: case["lower"].as_bool().unwrap_or(false) };
+        let u = U { sp };
+        let Some(stmt) = u.assert_stmt(&spec) else {
+            self.report.hit("assert:no_text_spelling");
+            self.report.case(op, false);
+            return;
+        };
+        let mut parts: Vec<String> = (0..prefix).map(|i| format!("CREATE CONCEPT ?p{i} {{ TYPE \"Thing\" }}")).collect();
+        parts.push(stmt);
+        let text = format!("MUTATE {{ {} }}", parts.join(" "));
+        // the model's answer for what the author wrote
+        let ctx = project::Ctx { items: true };
+        let line = (|| -> project::R<String> {
+            let handle = match spec["handle"].as_str() {
+                Some(h) => format!("+ {}", project::enc(h)),
+                None => "-".into(),
+            };
+            let sup = if spec["superseding"].is_null() { "-".to_string() } else { format!("+ {}", ctx.eref(&spec["superseding"])?) };
+            Ok(format!(
+                "assert {prefix} {handle} {} {} {} {} {sup}",
+                ctx.term(&spec["subject"])?,
+                ctx.patom(&spec["predicate"])?,
+                ctx.term(&spec["object"])?,
+                ctx.asg(&spec["members"])?
+            ))
+        })();
+        let line = match line {
+            Ok(l) => l,
+            Err(e) => {
+                self.report.disagreement("assert spec cannot be projected", &[op.to_string()], "-", &e);
+                return;
+            }
+        };
+        let model = self.ask(&line);
+        let real = run_real(&format!("text {text}"));
+        match real {
+            Real::Accepted(tree) => {
+                self.report.hit("assert:accepted");
+                self.report.case(&tree.to_string(), true);
+                let clauses: Vec<Value> = tree.pointer("/Kml/clauses").and_then(|c| c.as_array()).cloned().unwrap_or_default();
+                let expansion: Vec<Value> = clauses.iter().skip(prefix).cloned().collect();
+                // model vs implementation: the expansion itself
+                if let Some(model) = model {
+                    self.report.model_compared += 1;
+                    let out = project::Ctx { items: false };
+                    let shown = expansion.iter().map(|c| out.clause(c)).collect::<project::R<Vec<_>>>();
+                    match shown {
+                        Ok(cs) => {
+                            let imp = format!("ok {} {}", cs.len(), cs.join(" "));
+                            if imp != model {
+                                self.report.disagreement("ASSERT expansion", &[op.to_string(), format!("# text: {text}"), format!("# model line: {line}")], &model, &imp);
+                            }
+                        }
+                        Err(e) => self.report.disagreement("projection drift in an ASSERT expansion", &[op.to_string()], &model, &e),
+                    }
+                }
+                // implementation vs oracle
+                for v in oracle::check_assert_expansion(&spec, prefix, &expansion) {
+                    self.report.hit(&format!("oracle:{}", v.key));
+                    if self.seen_failure_keys.insert(v.key.clone()) {
+                        self.report.oracle_failure(&v.key, &v.what, &[op.to_string(), format!("# text: {text}")], "exactly ENSURE PROPOSITION / CREATE ASSERTION / optional SUPERSEDE with the written members", &v.what);
+                    }
+                }
+                self.compare(op, &tree, Ok(()));
+                self.oracle(&format!("text {text}"), &tree);
+                self.report.sample(json!({"op": op, "text": text, "verdict": "accepted", "clauses": clauses.len()}));
+            }
+            Real::Rejected(e, _) => {
+                let why = text_reason(&e);
+                self.report.hit(&format!("assert:rejected:{why}"));
+                self.report.case(op, false);
+                // must-refuse oracle: by / mode missing, unknown member
+                if let Some(model) = model {
+                    self.report.model_compared += 1;
+                    let model_rejects = model.starts_with("none:");
+                    let recognised = why.starts_with("assert_");
+                    let same_reason = model == format!("none:{}", why.trim_start_matches("assert_"));
+                    if recognised && !same_reason {
+                        self.report.disagreement("ASSERT refusal reason", &[op.to_string(), format!("# text: {text}")], &model, &format!("none:{why}"));
+                    } else if !recognised && !model_rejects {
+                        // the grammar refused for a reason of its own (a handle check, a protected key …):
+                        // the model accepted the sugar, so the plan-level verdict on the would-be expansion decides
+                        self.report.hit("assert:text_refused_model_expands");
+                    }
+                }
+            }
+            Real::Panicked(msg) => {
+                self.report.case(op, false);
+                self.report.oracle_failure("panic", "the parser panicked on an ASSERT", &[op.to_string()], "Ok or Err", &msg);
+            }
+            Real::Undecodable => {}
+        }
+        // independent must-refuse rule
+        let members: Vec<&str> = spec["members"].as_array().map(|xs| xs.iter().filter_map(|kv| kv.get(0)?.as_str()).collect()).unwrap_or_default();
+        let must_refuse = !members.contains(&"by") || !members.contains(&"mode") || members.iter().any(|m| !["by", "mode", "stance", "confidence", "at", "valid", "evidence", "key"].contains(m));
+        if must_refuse && let Real::Accepted(_) = run_real(&format!("text {text}")) {
+            self.report.oracle_failure("assert-accepted-without-actor-or-mode", "ASSERT without by / mode (or with an unknown member) was accepted", &[op.to_string(), format!("# text: {text}")], "refused", "accepted");
+        }
+    }
+}
+
+fn ops_of(cmd: &Value, spellings: &[Spelling]) -> Vec<String> {
+    let mut out = vec![format!("json {cmd}")];
+    for sp in spellings {
+        if let Some(t) = (U { sp: *sp }).command(cmd) {
+            out.push(format!("text {t}"));
+        }
+    }
+    out
+}
+
+const QUOTED: Spelling = Spelling { quote_keys: true, lower_keywords: false };
+const LOWER: Spelling = Spelling { quote_keys: false, lower_keywords: true };
+
+/// The complete finite matrix: clause family × (UPDATE: target binding) × block × field name × spelling.
+fn matrix(env: &mut Env, thorough: bool) -> Vec<String> {
+    let mut ops = Vec::new();
+    let mut names: Vec<(String, String)> = Vec::new();
+    for p in PROTECTED {
+        for (s, tag) in spellings(p) {
+            names.push((s, format!("protected:{tag}")));
+        }
+    }
+    for p in PAYLOAD {
+        names.push((p.to_string(), "payload:exact".into()));
+        if thorough {
+            names.push((p.to_ascii_uppercase(), "payload:upper".into()));
+        }
+    }
+    for o in ORDINARY {
+        names.push((o.to_string(), "ordinary".into()));
+    }
+    let entry_shapes = |name: &str| -> Vec<Vec<(String, Value)>> {
+        vec![vec![(name.to_string(), lit("x"))], vec![("note".to_string(), lit("n")), (name.to_string(), lit("x"))]]
+    };
+    let spell: &[Spelling] = &[PLAIN, QUOTED];
+    let mut push = |env: &mut Env, clauses: Vec<Value>, label: &str| {
+        let mut cmd = plan(true, clauses);
+        fix_filters(&mut cmd, &env.filter_sample);
+        env.report.hit(&format!("matrix:{label}"));
+        ops.extend(ops_of(&cmd, spell));
+    };
+    for (name, class) in &names {
+        for entries in entry_shapes(name) {
+            for family in FAMILIES {
+                for block in BLOCKS {
+                    if let Some(c) = site_clause(family, *block, &entries, None) {
+                        push(env, vec![c], class);
+                    }
+                }
+            }
+            for (_, target, wh) in update_targets() {
+                for block in BLOCKS {
+                    push(env, vec![update(target.clone(), vec![update_action(*block, &entries, None)], wh.clone())], class);
+                }
+            }
+        }
+    }
+    // duplicate keys (same string through two spellings is the same key)
+    for name in ["note", "stance", "governance"] {
+        let entries = vec![(name.to_string(), lit("a")), ("other".to_string(), lit("b")), (name.to_string(), lit("c"))];
+        for family in FAMILIES {
+            for block in BLOCKS {
+                if let Some(c) = site_clause(family, *block, &entries, None) {
+                    push(env, vec![c], "duplicate");
+                }
+            }
+        }
+        for block in BLOCKS {
+            push(env, vec![update(ep("t"), vec![update_action(*block, &entries, None)], None)], "duplicate");
+        }
+    }
+    // values: handles (bound / unbound / nested), own-field reads, update expressions
+    let values: Vec<(&str, Value)> = vec![
+        ("param", param("p")),
+        ("handle-bound", handle("c0")),
+        ("handle-unbound", handle("nobody")),
+        ("array-handle-bound", json!({"Array": [{"Handle": "c0"}, {"Param": "p"}]})),
+        ("array-handle-unbound", json!({"Array": [{"Value": {"String": "x"}}, {"Array": [{"Handle": "nobody"}]}]})),
+        ("object-handle-unbound", json!({"Object": [["a", {"Object": [["b", {"Handle": "nobody"}]]}]]})),
+        ("object-engine-named-member", json!({"Object": [["governance", {"Param": "p"}]]})),
+        ("literal-object-engine-named-member", json!({"Value": {"Object": {"governance": {"String": "x"}, "Handle": {"String": "y"}}}})),
+        ("own-field", dotted("t", "score")),
+        ("foreign-field", dotted("other", "score")),
+        ("array-foreign-field", json!({"Array": [{"Variable": {"var": "other", "path": [{"Field": "a"}]}}]})),
+        ("expr", expr_add("t")),
+        ("expr-foreign", expr_add("other")),
+        ("expr-bad-arity", expr_bad_arity("t")),
+        ("expr-nested", expr_nested("t", true)),
+        ("expr-nested-bad-arity", expr_nested("t", false)),
+    ];
+    for (label, value) in &values {
+        let entries = vec![("note".to_string(), value.clone())];
+        for family in FAMILIES {
+            for block in [Block::Fields, Block::Attributes, Block::Facet, Block::SetStructural, Block::UnsetStructural] {
+                if let Some(c) = site_clause(family, block, &entries, None) {
+                    push(env, vec![create_concept("c0"), c], &format!("value:{label}"));
+                }
+            }
+        }
+        for (_, target, wh) in update_targets().into_iter().take(5) {
+            for block in [Block::Fields, Block::Attributes, Block::Facet, Block::SetStructural, Block::UnsetStructural] {
+                push(env, vec![create_concept("c0"), update(target.clone(), vec![update_action(block, &entries, None)], wh.clone())], &format!("value:{label}"));
+            }
+        }
+    }
+    // structural edge options carrying handles
+    for (label, opt) in [("bound", json!({"index": {"Value": {"Number": 1}}, "role": {"Handle": "c0"}})), ("unbound", json!({"role": {"Array": [{"Handle": "nobody"}]}}))] {
+        let entries = vec![("has_step".to_string(), param("x"))];
+        for family in FAMILIES {
+            if let Some(c) = site_clause(family, Block::SetStructural, &entries, Some(opt.clone())) {
+                push(env, vec![create_concept("c0"), c], &format!("edge-options:{label}"));
+            }
+        }
+        push(env, vec![create_concept("c0"), update(ep("t"), vec![update_action(Block::SetStructural, &entries, Some(opt.clone()))], None)], &format!("edge-options:{label}"));
+    }
+    // empty UNSET STRUCTURAL, UPDATE without actions, PURGE confirmation, empty plan
+    push(env, vec![update(ep("t"), vec![json!({"UnsetStructural": []})], None)], "shape");
+    push(env, vec![update(ep("t"), vec![], None)], "shape");
+    {
+        let mut u = upsert_concept("s");
+        u["UpsertConcept"]["unset_structural"] = json!([]);
+        push(env, vec![u], "shape");
+    }
+    for c in ["PURGE", "purge", "Purge", "PURGE ", ""] {
+        push(env, vec![purge(ep("t"), None, c)], "purge-confirm");
+    }
+    push(env, vec![], "shape");
+    // UPSERT identity selectors
+    let selectors: Vec<Value> = vec![
+        json!({"id": {"Literal": {"String": "c-1"}}}),
+        json!({"key": {"Param": "k"}}),
+        json!({"name": {"Literal": {"String": "n"}}}),
+        json!({"key": {"Variable": "v"}}),
+        json!({"id": {"Array": [{"Literal": {"String": "a"}}]}}),
+        json!({"id": {"Match": {"x": {"Param": "k"}}}}),
+        json!({"ID": {"Literal": {"String": "c-1"}}}),
+        json!({"Key": {"Param": "k"}}),
+        json!({"name": {"Literal": {"String": "n"}}, "key": {"Literal": {"Number": 3}}}),
+        json!({"key": {"Literal": "Null"}}),
+        json!({}),
+        json!({"key": {"Param": "k"}, "links": {"Array": [{"Proposition": {"Tuple": {"subject": tlit("x"), "predicate": atom("a"), "object": tvar("b")}}}]}}),
+        json!({"key": {"Param": "k"}, "links": {"Proposition": {"Tuple": {"subject": tvar("x"), "predicate": path2("a", "b"), "object": tvar("b")}}}}),
+    ];
+    for sel in selectors {
+        let mut u = upsert_concept("s");
+        u["UpsertConcept"]["match"] = sel;
+        push(env, vec![u], "upsert-selector");
+    }
+    {
+        let mut u = upsert_concept("s");
+        u["UpsertConcept"]["match"] = Value::Null;
+        push(env, vec![u], "upsert-selector");
+    }
+    // ENSURE PROPOSITION: create structure only from an exact tuple
+    let subjects = vec![tvar("c0"), tparam("s"), tlit("x"), json!({"Match": {"key": {"Literal": {"String": "k"}}}}),
+        json!({"Proposition": {"Tuple": {"subject": tvar("a"), "predicate": atom("p"), "object": tvar("b")}}}),
+        json!({"Proposition": {"Tuple": {"subject": tlit("lit"), "predicate": atom("p"), "object": tvar("b")}}}),
+        json!({"Proposition": {"Tuple": {"subject": tvar("a"), "predicate": path_hops("p"), "object": tvar("b")}}}),
+        json!({"Proposition": {"Id": {"Param": "pid"}}}),
+        json!({"Match": {"links": {"Proposition": {"Tuple": {"subject": tlit("lit"), "predicate": atom("p"), "object": tvar("b")}}}}})];
+    let preds = vec![json!({"Literal": "likes"}), json!({"Param": "pp"}), json!({"Variable": "pv"})];
+    for s in &subjects {
+        for p in &preds {
+            for o in [tparam("o"), tlit("blue"), subjects[6].clone(), subjects[5].clone()] {
+                push(env, vec![create_concept("c0"), ensure_proposition(Some("e"), s.clone(), p.clone(), o)], "ensure-proposition");
+            }
+        }
+    }
+    ops
+}
+
+/// Selection blocks: BELIEF at every nesting depth, path predicates, literal subjects — in every
+/// family that carries a WHERE and in EXPORT CAPSULE.
+fn selections(env: &mut Env) -> Vec<String> {
+    let t = "t";
+    let belief = json!({"Belief": {"variable": "b", "target": {"Proposition": t}}});
+    let belief_id = json!({"Belief": {"variable": "b", "target": {"Id": {"Param": "pid"}}}});
+    let belief_tuple = json!({"Belief": {"variable": "b", "target": {"Tuple": {"subject": tvar(t), "predicate": atom("likes"), "object": tvar("o")}}}});
+    let slot = json!({"BeliefSlot": {"variable": "b", "subject": tvar(t), "predicate": {"Literal": "likes"}}});
+    let bad_atoms: Vec<(&str, Value)> = vec![
+        ("belief", belief),
+        ("belief-id", belief_id),
+        ("belief-tuple", belief_tuple),
+        ("belief-slot", slot),
+        ("path-alt", w_prop(None, tvar(t), path2("a", "b"), tvar("o"))),
+        ("path-hops", w_prop(Some("p"), tvar(t), path_hops("a"), tvar("o"))),
+        ("literal-subject", w_prop(None, tlit("x"), atom("a"), tvar(t))),
+        ("nested-term-path", w_prop(None, json!({"Proposition": {"Tuple": {"subject": tvar(t), "predicate": path2("a", "b"), "object": tvar("o")}}}), atom("says"), tvar("o"))),
+        ("nested-object-literal-subject", w_prop(None, tvar(t), atom("says"), json!({"Proposition": {"Tuple": {"subject": tlit("x"), "predicate": atom("a"), "object": tvar("o")}}}))),
+        ("matcher-array-path", json!({"Concept": {"variable": t, "matcher": {"links": {"Array": [{"Match": {"via": {"Proposition": {"Tuple": {"subject": tvar("q"), "predicate": path_hops("a"), "object": tvar("r")}}}}}]}}}})),
+        ("structural-term-literal-subject", json!({"Structural": {"variable": null, "subject": json!({"Proposition": {"Tuple": {"subject": tlit("x"), "predicate": atom("a"), "object": tvar("o")}}}), "field": {"Name": "has_step"}, "object": tvar(t)}})),
+        ("ok-concept", w_kind("Concept", t)),
+        ("ok-prop-id", json!({"Proposition": {"variable": t, "matcher": {"Id": {"Literal": {"String": "p-1"}}}}})),
+        ("ok-nested-prop", w_prop(Some(t), json!({"Proposition": {"Tuple": {"subject": tvar("a"), "predicate": atom("b"), "object": tlit("lit-object")}}}), atom("says"), tlit("x"))),
+        ("ok-filter", json!({"Filter": null})),
+    ];
+    let wrap = |depth: usize, which: usize, inner: Value| -> Value {
+        let mut w = inner;
+        for d in 0..depth {
+            let tag = ["Not", "Optional", "Union"][(which + d) % 3];
+            w = json!({tag: [w_kind("Concept", "z"), w]});
+        }
+        w
+    };
+    let mut ops = Vec::new();
+    for (label, a) in &bad_atoms {
+        for depth in 0..4usize {
+            for which in 0..3usize {
+                if depth == 0 && which > 0 {
+                    continue;
+                }
+                let wh = json!([w_kind("Concept", t), wrap(depth, which, a.clone())]);
+                let mut cmds = vec![
+                    plan(false, vec![update(eh(t), vec![update_action(Block::Attributes, &[("note".to_string(), lit("x"))], None)], Some(wh.clone()))]),
+                    plan(false, vec![target_where("RetractAssertion", eh(t), Some(wh.clone()))]),
+                    plan(false, vec![target_where("Archive", eh(t), Some(wh.clone()))]),
+                    plan(false, vec![target_where("Tombstone", eh(t), Some(wh.clone()))]),
+                    plan(false, vec![set_retention(eh(t), json!([["retention_class", lit("short")]]), Some(wh.clone()))]),
+                    plan(false, vec![purge(eh(t), Some(wh.clone()), "PURGE")]),
+                    plan(false, vec![merge(ep("a"), ep("b"), Some(wh.clone()))]),
+                    export(wh.clone()),
+                ];
+                for cmd in cmds.iter_mut() {
+                    fix_filters(cmd, &env.filter_sample);
+                    env.report.hit(&format!("selection:{label}:depth{depth}"));
+                    ops.extend(ops_of(cmd, &[PLAIN, LOWER]));
+                }
+            }
+        }
+    }
+    let mut e = export(json!([]));
+    fix_filters(&mut e, &env.filter_sample);
+    ops.extend(ops_of(&e, &[PLAIN]));
+    ops
+}
+
+fn asserts(thorough: bool) -> Vec<String> {
+    let mut ops = Vec::new();
+    let subject = json!({"Param": "alice"});
+    let mk = |prefix: u64, handle: Option<&str>, members: Vec<(String, Value)>, sup: Value, quote: bool| -> String {
+        let spec = json!({"handle": handle, "subject": subject, "predicate": {"Literal": "prefers"}, "object": {"Literal": {"String": "dark mode"}},
+            "members": members.iter().map(|(k, v)| json!([k, v])).collect::<Vec<_>>(), "superseding": sup});
+        format!("assert {}", json!({"prefix": prefix, "spec": spec, "quote_keys": quote, "lower": false}))
+    };
+    // every subset of the eight members, in table order
+    for mask in 0u32..256 {
+        let members: Vec<(String, Value)> =
+            ASSERT_MEMBERS.iter().enumerate().filter(|(i, _)| mask & (1 << i) != 0).map(|(i, m)| (m.to_string(), assert_value(m, (mask as u64 + i as u64) % 4))).collect();
+        let handle = if mask % 3 == 0 { Some("a") } else { None };
+        let sup = match mask % 5 {
+            0 => json!({"Param": "old"}),
+            1 => json!({"Id": "as-1"}),
+            _ => Value::Null,
+        };
+        ops.push(mk(1 + (mask as u64 % 3), handle, members, sup, mask % 2 == 1));
+    }
+    // value variants per member, member order shuffled, unknown members
+    let vmax = if thorough { 6 } else { 6 };
+    for m in ASSERT_MEMBERS {
+        for variant in 0..vmax {
+            let mut members = vec![("by".to_string(), param("alice")), ("mode".to_string(), lit("stated"))];
+            members.retain(|(k, _)| k != m);
+            members.insert((variant as usize) % (members.len() + 1), (m.to_string(), assert_value(m, variant)));
+            ops.push(mk(1, None, members, Value::Null, false));
+        }
+    }
+    for unknown in ["note", "By", "MODE", "asserted_by", "proposition", "governance", "_system", "evidence_refs", "mode "] {
+        let members = vec![("by".to_string(), param("alice")), ("mode".to_string(), lit("stated")), (unknown.to_string(), lit("x"))];
+        ops.push(mk(1, None, members.clone(), Value::Null, false));
+        ops.push(mk(1, Some("a"), members, json!({"Handle": "p0"}), true));
+    }
+    // two handle-less ASSERTs need distinct synthetic handles: positions 0..3
+    for prefix in 0..4 {
+        ops.push(mk(prefix, None, vec![("by".to_string(), param("alice")), ("mode".to_string(), lit("observed"))], Value::Null, false));
+    }
+    ops
+}
+
 fn main() {
-    let a = vh_common::Args::parse();
-    let r = vh_common::Report::new("C16", &a, "stub");
-    r.write(&a);
+    let args = Args::parse();
+    let rule = "non-trivial = a command accepted by parse_kip / validate_command that carries at least one assignment block, structural entry, \
+                selection block, handle reference, ENSURE PROPOSITION or PURGE (i.e. something the guards had to look at and the oracle walked), \
+                or an ASSERT whose expansion was compared; distinct after serde canonicalisation of the accepted tree";
+    let report = Report::new("C16", &args, rule);
+    // one real FILTER tree, so that generated selections can carry a filter clause
+    let filter_sample = match parse_kip("FIND(?t) WHERE { ?t {type: \"T\"} FILTER(?t.score > 1) }") {
+        Ok(cmd) => serde_json::to_value(&cmd).ok().and_then(|v| v.pointer("/Kql/where_clauses/1").cloned()).expect("filter sample"),
+        Err(e) => panic!("cannot build the FILTER sample: {e}"),
+    };
+    let mut env = Env { model: ModelProc::from_args(&args), report, filter_sample, seen_failure_keys: Default::default() };
+    env.report.max_samples = 8;
+
+    if let Some(path) = &args.replay {
+        for op in vh_common::read_replay(path) {
+            env.eval(&op);
+        }
+        env.report.write(&args);
+        return;
+    }
+
+    if let Some(dir) = &args.corpus {
+        for (_, ops) in vh_common::read_corpus(dir) {
+            for op in ops {
+                env.report.hit("corpus_ops");
+                env.eval(&op);
+            }
+        }
+    }
+
+    let thorough = args.thorough() || args.focus.is_some();
+    let ops = matrix(&mut env, thorough);
+    env.report.hit_n("generated:matrix_ops", ops.len() as u64);
+    for op in &ops {
+        env.eval(op);
+    }
+    let ops = selections(&mut env);
+    env.report.hit_n("generated:selection_ops", ops.len() as u64);
+    for op in &ops {
+        env.eval(op);
+    }
+    let ops = asserts(thorough);
+    env.report.hit_n("generated:assert_ops", ops.len() as u64);
+    for op in &ops {
+        env.eval(op);
+    }
+    // the matrix, the selections and the ASSERT member subsets are enumerated completely
+    env.report.exhaustive = true;
+
+    let n = args.budget(6000, 120_000);
+    for i in 0..n {
+        let mut rng = Rng::for_case(args.seed, i);
+        let mut cmd = random_plan(&mut rng);
+        fix_filters(&mut cmd, &env.filter_sample);
+        let sp = [PLAIN, QUOTED, LOWER][rng.usize(3)];
+        env.report.hit("generated:random_plan");
+        for op in ops_of(&cmd, &[sp]) {
+            env.eval(&op);
+        }
+    }
+    env.report.notes.push(
+        "exhaustive part: clause family × UPDATE target binding × block × field name (engine-owned ×6 spellings, immutable payload, ordinary) × key spelling \
+         (bare / quoted) as text and as injected tree; selection blocks × 15 patterns × nesting depth 0–3 × 8 carriers; all 256 ASSERT member subsets. \
+         Random part: multi-clause plans over handle graphs."
+            .into(),
+    );
+    env.report.write(&args);
 }
